@@ -177,6 +177,35 @@ impl World {
         Ok(format!("case {}", id))
     }
 
+    /// the raw state of every peer (real bytes, sorted): used to detect a round that changes nothing
+    /// without touching the canonical numbering of the case
+    async fn fingerprint(&mut self) -> String {
+        let c = self.case.as_ref().unwrap();
+        let mut parts = vec![];
+        for pi in 0..c.npeers {
+            let raw = dump_raw(&self.peers[pi], c.rooms.clone()).await;
+            let mut v: Vec<String> = vec![];
+            for n in &raw.nodes {
+                v.push(format!("N{:?}{:?}{}{}{}{:?}{:?}", n.id, n.room, n.cdate, n.mdate, n.entity, n.json, n.sig));
+            }
+            for e in raw.edges.iter().filter(|e| c.row_of.contains_key(&e.src) || c.row_of.contains_key(&e.dest)) {
+                v.push(format!("E{:?}{:?}{}{:?}", e.src, e.dest, e.cdate, e.key));
+            }
+            for t in &raw.ntombs {
+                v.push(format!("D{:?}{:?}{}{}{:?}", t.room, t.id, t.mdate, t.ddate, t.sig));
+            }
+            for t in &raw.etombs {
+                v.push(format!("X{:?}{:?}{:?}{}{}{:?}", t.room, t.src, t.dest, t.cdate, t.ddate, t.sig));
+            }
+            for l in &raw.log {
+                v.push(format!("L{:?}{}{}{}{:?}{:?}{}", l.room, l.entity, l.date, l.n, l.daily, l.history, l.dirty));
+            }
+            v.sort();
+            parts.push(v.join("|"));
+        }
+        parts.join("#")
+    }
+
     async fn dump(&mut self) -> String {
         let c = self.case.as_mut().unwrap();
         let mut parts = vec![];
@@ -265,9 +294,11 @@ fn canon_dump(c: &mut Case, key_of: &HashMap<Vec<u8>, usize>, raw: &Raw) -> Stri
         })
         .collect();
     ns.sort();
+    let known: std::collections::HashSet<Uid> = c.row_of.keys().cloned().collect();
     let mut es: Vec<(String, String)> = raw
         .edges
         .iter()
+        .filter(|e| known.contains(&e.src) || known.contains(&e.dest))
         .map(|e| {
             let (a, b) = (rid(c, &e.src), rid(c, &e.dest));
             let s = format!("{}:{}:{}:{}", a, b, t(e.cdate), key_ix(key_of, &e.key));
@@ -399,6 +430,26 @@ fn canon_dump(c: &mut Case, key_of: &HashMap<Vec<u8>, usize>, raw: &Raw) -> Stri
     )
 }
 
+/// first-byte band of the real signature for a symbolic signature number: numbers from 3000000 / below 2000000
+/// (same-date concurrent versions) get disjoint bands above / below the band of the ordinary numbers
+fn band(sig: u64) -> (u8, u8) {
+    if sig >= 3_000_000 {
+        match sig % 10 {
+            1 => (0xA0, 0xC0),
+            2 => (0xC0, 0xD8),
+            _ => (0xD8, 0xF0),
+        }
+    } else if sig < 2_000_000 {
+        match 3 - (sig % 10).min(3) {
+            1 => (0x40, 0x60),
+            2 => (0x28, 0x40),
+            _ => (0x10, 0x28),
+        }
+    } else {
+        (0x60, 0xA0)
+    }
+}
+
 fn sort_key(k: &str) -> String {
     match k.parse::<u64>() {
         Ok(n) => format!("0{:012}", n),
@@ -520,6 +571,7 @@ impl World {
         kind: &str,
         kv: &HashMap<String, String>,
         res: Result<discret::verif_hooks::database::mutation_query::MutationQuery, DbError>,
+        enforce_band: bool,
     ) -> (String, bool) {
         let c = self.case.as_mut().unwrap();
         match res {
@@ -540,6 +592,13 @@ impl World {
                     let vs = c.versions.entry(row).or_default();
                     for (m, b, s) in vs.iter() {
                         if *m == node.mdate && *s != sig && ((node._signature > *b) != (sig > *s)) {
+                            violated = true;
+                        }
+                    }
+                    if enforce_band {
+                        let (lo, hi) = band(sig);
+                        let b0 = node._signature[0];
+                        if b0 < lo || b0 >= hi {
                             violated = true;
                         }
                     }
@@ -595,7 +654,8 @@ impl World {
     }
 
     async fn write_op(&mut self, kind: &str, kv: &HashMap<String, String>) -> Result<String, String> {
-        let (p, text, ps) = self.mutation_text(kind, kv)?;
+        let (p, mut text, mut ps) = self.mutation_text(kind, kv)?;
+        let mut retry_kind = kind;
         let is_del = kind == "del" || kind == "unref";
         let in_batch = matches!(&self.case.as_ref().unwrap().open, Some((bp, _, _)) if *bp == p);
         if !in_batch {
@@ -649,10 +709,26 @@ impl World {
                 }
                 let res = rx.await.map_err(|e| e.to_string())?;
                 self.peers[p].write_barrier().await;
-                let (r, violated) = self.register_mutation(kind, kv, res);
-                if violated && kind == "upd" && tries < 200 {
+                let (r, violated) = self.register_mutation(if tries == 0 { kind } else { retry_kind }, kv, res, kind == "new" || kind == "upd");
+                if violated && (kind == "upd" || kind == "new") && tries < 1000 {
                     tries += 1;
                     self.stats.inc("sig_order_retries");
+                    if tries == 1 {
+                        // from now on: a plain update of the same row at the same date, same value, other salt
+                        let c = self.case.as_ref().unwrap();
+                        let row = getn(kv, "row").unwrap();
+                        let id = *c.rows.get(&row).unwrap();
+                        let ent = *c.ent_of_row.get(&row).unwrap();
+                        text = format!("mutate {{ P: {} {{ id:$id name:$name salt:$salt }} }}", ENTITIES[ent]);
+                        let name = ps.iter().find(|(k, _)| k == "name").map(|x| x.1.clone()).unwrap_or_default();
+                        let salt = ps.iter().find(|(k, _)| k == "salt").map(|x| x.1.clone()).unwrap_or_default();
+                        ps = vec![
+                            ("id".to_string(), discret::verif_hooks::security::uid_encode(&id)),
+                            ("name".to_string(), name),
+                            ("salt".to_string(), salt),
+                        ];
+                        retry_kind = "upd";
+                    }
                     continue;
                 }
                 if violated {
@@ -672,7 +748,7 @@ impl World {
         for mut pe in pend {
             if let Some(rx) = pe.mutation.take() {
                 match rx.await {
-                    Ok(res) => rs.push(self.register_mutation(&pe.op, &pe.kv, res).0),
+                    Ok(res) => rs.push(self.register_mutation(&pe.op, &pe.kv, res, false).0),
                     Err(_) => rs.push("err:lost".to_string()),
                 }
             } else if let Some(rx) = pe.deletion.take() {
@@ -782,7 +858,7 @@ impl World {
                 let mut last_f = 0;
                 let mut quiet = false;
                 while rounds < max {
-                    let before = self.dump().await;
+                    let before = self.fingerprint().await;
                     let mut f = 0;
                     for dst in 0..n {
                         for src in 0..n {
@@ -794,7 +870,7 @@ impl World {
                     }
                     rounds += 1;
                     last_f = f;
-                    let after = self.dump().await;
+                    let after = self.fingerprint().await;
                     if before == after {
                         quiet = true;
                         break;
